@@ -75,6 +75,11 @@ def gen_cases(tier, rng):
                 inputs.append(tc.case([d.replace("{b}", b)], pol=pol))
     soup = tc.random_soup(rng, 150 if tier == "quick" else 8000)
     inputs += soup
+    for text, st in tc.bulk_inputs(tier):
+        line = tc.case([text], state=st, last=tc.hx("s") if st != "-" else "~", pol=tc.RAW_POL if st == "-" else "cdata=0")
+        cases.append((line, "bulk"))
+        cases.append((tc.with_opts(line, exact=1), "bulk"))
+        cases.append((tc.with_chunks(line, tc.random_partition(rng, text)), "bulk"))
     for line in inputs:
         f = tc.fields(line)
         s = f["chunks"][0]
